@@ -40,6 +40,9 @@ def run(ctx):
     for name, consts, limit in runs:
         mx, table, c = AG.emit(rep, name, consts)
         AG.replay_all(ctx, rep, mx, table, c, KINDS, label=name + ":", limit=limit)
+        if name == "flags":
+            # the same behaviours with the requires_grad flag of leaves set through Module.freeze() / unfreeze()
+            AG.replay_all(ctx, rep, mx, table, c, KINDS, label=name + ":module-route:", limit=limit, rattrs=dict(rg_route="module"))
     mx, table, c = AG.emit(rep, "sim", dict(MaxNodes=5, GAlpha={1, -2}, Ops={"mul", "add", "sum", "idx"}, UseVec=True, MaxHist=14, MaxBackward=3, MaxCtx=4,
                                            Acts={"leaf", "op", "setrg", "retain", "detach", "ctx", "bw", "zero"}, InitLeaves=L1),
                             simulate="num=%d" % (300 if q else 20000), depth=80, seed=ctx.seed + 5, workers=1)
@@ -48,9 +51,9 @@ def run(ctx):
     # gradient tracking on and inside no_grad, for every subset of operands that require grad
     from .. import cat_common as CC
     ft = CC.flag_table(rep)
-    cases = [c for c in CC.tensor_cases(ctx, rep, with_grad=False) if c["pol"] == "MUST"]
+    cases = [c for c in CC.tensor_cases(ctx, rep, with_grad=False) if c["pol"] in ("MUST", "UNDEF")]
     CC.replay(ctx, rep, cases, {"flags"}, rattrs=dict(flagtable=ft, only_flags=True))
-    ncases = [c for c in CC.nn_cases(ctx, rep, with_grad=False) if c["pol"] == "MUST"]
+    ncases = [c for c in CC.nn_cases(ctx, rep, with_grad=False) if c["pol"] in ("MUST", "UNDEF")]
     CC.replay(ctx, rep, ncases, {"flags"}, replayer=CC.NN_REPLAYER, spec="NNCatalog", rattrs=dict(flagtable=ft, only_flags=True))
     # code -> spec: executions recorded from the real library (random programs over a wide slice of the API)
     # are validated by TLC against the structural specification Tape.tla (TapeTrace.tla)
